@@ -94,8 +94,8 @@ FunctionID::execute(
         }
         else
         {
-            assert(theTokenCount != 0);
-
+            // There is no token at all when the string consists of
+            // white space.  The result is an empty node-set then...
             typedef XPathExecutionContext::BorrowReturnMutableNodeRefList   BorrowReturnMutableNodeRefList;
 
             // This list will hold the nodes we find.
